@@ -22,6 +22,7 @@ import (
 )
 
 func main() {
+	SockServeIfChild()
 	Main("C05", c05)
 }
 
@@ -172,9 +173,9 @@ func c05(c *Ctx) {
 	pk := func(trs []Transfer, t, no int) item { return item{f: trs[t].Packet(no), tr: t, no: no} }
 
 	// (1) exhaustive small scope: N = 1..maxN, all orders with packet 1 first, every single duplicate
-	maxN := 5
+	maxN := 6
 	if !quick {
-		maxN = 6
+		maxN = 7
 	}
 	for n := 1; n <= maxN; n++ {
 		rest := make([]int, 0, n)
@@ -280,7 +281,7 @@ func c05(c *Ctx) {
 
 	// (3) random larger scenarios: N in 7..40 and 255, duplicates, bad numbers, a second and third
 	// transfer, unfragmented traffic, large bodies (escaped frames longer than a read)
-	nrand := 150
+	nrand := 500
 	if !quick {
 		nrand = 4000
 	}
@@ -364,7 +365,7 @@ func c05(c *Ctx) {
 
 	// (4) ill-formed sub-package streams: arbitrary totals / numbers / empty bodies / repeated packet 1 /
 	// totals changing in mid-transfer: outside the property, correspondence only (pins the model)
-	nill := 1500
+	nill := 4000
 	if !quick {
 		nill = 40000
 	}
